@@ -10,6 +10,8 @@ pub enum WKind {
     Tagged(&'static str, &'static str, RTy),
     /// enum with struct variants { u, v }
     Pok,
+    /// SecretKeyEnum { G1(SecretKey<G1Impl>), G2(SecretKey<G2Impl>) }: a pair (curve, scalar)
+    CurveTagged,
     /// struct: coq type, constructor, fields in constructor order (rust name, projection, type)
     Record(&'static str, &'static str, Vec<(&'static str, &'static str, RTy)>),
 }
@@ -25,6 +27,8 @@ pub fn wrapper(name: &str) -> Option<WKind> {
         "Signature" | "AggregateSignature" | "MultiSignature" | "ProofCommitment" => WKind::Tagged("(@tagged K)", "mktagged", SigPt),
         "SignatureShare" => WKind::Tagged("tagged_share", "mktshare", SigShare),
         "ProofOfKnowledge" => WKind::Pok,
+        "SecretKeyEnum" => WKind::CurveTagged,
+        "BlsSignature" => WKind::Newtype(Unit),       // PhantomData carrier of the implementation type
         "ProofOfKnowledgeTimestamp" => WKind::Record("(@pok_ts K)", "mkpokts", vec![("proof", "pts_proof", W("ProofOfKnowledge".into())), ("timestamp", "pts_timestamp", U64)]),
         "SignCryptCiphertext" => WKind::Record("(@sc_ct K)", "mkscct", vec![("u", "sc_u", PkPt), ("v", "sc_v", Bytes), ("w", "sc_w", SigPt), ("scheme", "sc_scheme", Scheme)]),
         "TimeCryptCiphertext" => WKind::Record("(@tl_ct K)", "mktlct", vec![("u", "tl_u", PkPt), ("v", "tl_v", Bytes), ("w", "tl_w", Bytes), ("scheme", "tl_scheme", Scheme)]),
@@ -52,6 +56,7 @@ pub fn coq_type(name: &str) -> Option<String> {
         WKind::Newtype(t) => t.coq(),
         WKind::Tagged(c, _, _) => Some(c.to_string()),
         WKind::Pok => Some("(@pok K)".to_string()),
+        WKind::CurveTagged => Some("(curve * car K)%type".to_string()),
         WKind::Record(c, _, _) => Some(c.to_string()),
     }
 }
@@ -64,4 +69,12 @@ pub fn erase(t: &RTy) -> RTy {
         }
     }
     t.clone()
+}
+
+pub fn curve_ctor(variant: &str) -> Option<&'static str> {
+    match variant {
+        "G1" => Some("CurveG1"),
+        "G2" => Some("CurveG2"),
+        _ => None,
+    }
 }
